@@ -205,17 +205,19 @@ Section Steps.
 
   Lemma next_mono : forall s op, g_next s <= g_next (step classes s op).
   Proof.
-    intros s op. destruct op as [m cls|m cls o|m|]; cbn [step]; unfold attach; cbn [g_next]; try lia.
+    intros s op. destruct op as [m cls|m cls o v|m cls dyn v|m|]; cbn [step]; unfold attach; cbn [g_next]; try lia.
     destruct (assoc_nat m (g_mobjs s)); [cbn; lia|]. destruct (assoc_nat m (g_stale s)); cbn; lia.
   Qed.
 
   Lemma inv_step : forall s op, Inv s -> op_ok s op = true -> Inv (step classes s op).
   Proof.
-    intros s op I Hok. destruct op as [m cls|m cls o|m|].
+    intros s op I Hok. destruct op as [m cls|m cls o v|m cls dyn v|m|].
     - cbn [step]. cbn [op_ok] in Hok. apply andb_true_iff in Hok. destruct Hok as [Hm _].
       apply inv_attach; [exact I | lia|]. intros Hin. apply mem_nat_In in Hin. rewrite Hin in Hm. discriminate.
     - cbn [step]. cbn [op_ok] in Hok. apply andb_true_iff in Hok. destruct Hok as [Hok _].
       apply andb_true_iff in Hok. destruct Hok as [Hm _].
+      apply inv_attach; [exact I | lia|]. intros Hin. apply mem_nat_In in Hin. rewrite Hin in Hm. discriminate.
+    - cbn [step]. cbn [op_ok] in Hok. apply andb_true_iff in Hok. destruct Hok as [Hm _].
       apply inv_attach; [exact I | lia|]. intros Hin. apply mem_nat_In in Hin. rewrite Hin in Hm. discriminate.
     - apply inv_delete; [exact I|]. cbn [op_ok] in Hok. apply mem_nat_In. exact Hok.
     - apply inv_unload. exact I.
@@ -294,11 +296,11 @@ Section Steps.
   Qed.
 
   (* a proxy received for object o designates o at every inheritance level, and finds all its cells live *)
-  Theorem receive_same_object : forall h m cls o, protocol classes ginit (h ++ [Receive m cls o]) = true ->
-    exists l, In (m, l) (g_mobjs (run classes (h ++ [Receive m cls o]))) /\ l <> [] /\
-      forall a, In a l -> exists c, In c (g_cells (run classes (h ++ [Receive m cls o]))) /\ c_addr c = a /\ c_obj c = o.
+  Theorem receive_same_object : forall h m cls o v, protocol classes ginit (h ++ [Receive m cls o v]) = true ->
+    exists l, In (m, l) (g_mobjs (run classes (h ++ [Receive m cls o v]))) /\ l <> [] /\
+      forall a, In a l -> exists c, In c (g_cells (run classes (h ++ [Receive m cls o v]))) /\ c_addr c = a /\ c_obj c = o.
   Proof.
-    intros h m cls o _. unfold run. rewrite fold_left_app. cbn [fold_left step]. unfold attach. cbn [g_mobjs g_cells].
+    intros h m cls o v _. unfold run. rewrite fold_left_app. cbn [fold_left step]. unfold attach. cbn [g_mobjs g_cells].
     match goal with |- context[level_cells ?n o m ?ls] => set (cs := level_cells n o m ls); set (lv := ls) in * end.
     exists (map c_addr cs). split; [left; reflexivity|]. split.
     - assert (Hl : lv <> []). { unfold lv, chain_of. destruct (length classes); cbn [chain]; [discriminate|].
